@@ -493,8 +493,7 @@ func checkC07(p *Prog, res *Result, tier string) {
 	checkCompactionClamp(p, r, res, "C07-R5")
 
 	// ---- R6: the compare-and-delete primitive of every adapter really compares (C11-R1) ----
-	sub := newResult("C11")
-	checkC11(p, sub, tier)
+	sub := p.subResult("C11", tier)
 	for _, o := range sub.Obls {
 		if o.Rule == "C11-R1" && strings.Contains(o.Construct, "DelCurrent") {
 			res.add("C07-R6", o.Rule+" "+o.Construct, o.Status, o.Pos, o.Detail)
